@@ -54,6 +54,7 @@ def transplant(ses, rep, fs):
             continue
         ex = ses.executor("lib", fs, inline=lambda n_, fn: False)
         ex.max_block_visits = 1
+        ex.inline_closure_calls = True          # a local closure called by name is part of the function (helper lambdas)
         try:
             args = lazy_args(ex, f)
             outs = ex.run(f, args)
@@ -100,8 +101,6 @@ def transplant(ses, rep, fs):
                     continue
                 x = canonical(ex, byoid, x)
                 toks[x.oid] = x
-            if not toks:
-                continue
             # trivia accessor results per token, all trivia results
             triv = {}
             for t in hv:
@@ -211,6 +210,77 @@ def transplant(ses, rep, fs):
                     if r == "sat":
                         flagged.append((oid_, f"{f.name}: the {side.replace('_', ' ')} of the removed token {T.label[-30:]} is not carried into the result",
                                         "transplant", {"function": f.name, "token": T.label[-30:], "side": side}))
+            # R: FormatTriviaType::Replace on one side of a token that comes from the input discards that side's trivia: the old trivia
+            # must have been read into something that reaches the result, or a comment test on it is false on this path
+            for ci, t in enumerate(hv):
+                last = t[1].split("::")[-1]
+                if last not in ("update_leading_trivia", "update_trailing_trivia", "update_trivia"):
+                    continue
+                snap = t[4] if len(t) > 4 else t[2]
+                X = deref_val(ex, o.state, snap[0])
+                if not isinstance(X, Lazy) or not TOKEN_TY.search(X.ty.strip()) or not isinstance(t[3], Lazy) or t[3].oid not in full:
+                    continue
+                X = canonical(ex, byoid, X)
+                if node.oid not in P.of(X):
+                    continue
+                sides = [("leading_trivia", snap[1]), ("trailing_trivia", snap[2])] if last == "update_trivia" and len(snap) > 2 else \
+                        [("leading_trivia" if "leading" in last else "trailing_trivia", snap[1])] if len(snap) > 1 else []
+                # the token and the tokens it is a formatted copy of; the containers it was taken from
+                equiv, conts, cur, steps = {X.oid}, set(), X, 0
+                while cur is not None and steps < 12:
+                    steps += 1
+                    root = cur.oid
+                    while root in ex.parent:
+                        root = ex.parent[root][0]
+                        if root != node.oid and root in byoid:
+                            conts.add(root)
+                    if root == node.oid or root not in ex.havoc_calls:
+                        break
+                    nm, a = ex.havoc_calls[root]
+                    srcs = [x_ for x_ in (deref_val(ex, o.state, y_) for y_ in ex.havoc_snap.get(root, a)) if isinstance(x_, Lazy)
+                            and not re.search(r"(Context|Shape|FormatTriviaType|Vec<.*>)$", x_.ty.strip())]
+                    if not srcs:
+                        break
+                    c0 = srcs[0]
+                    if c0.oid == node.oid:
+                        break
+                    if TOKEN_TY.search(c0.ty.strip()) and root == cur.oid:
+                        equiv.add(canonical(ex, byoid, c0).oid)      # cur = f(ctx, c0, ..): a formatted copy of token c0
+                    else:
+                        conts.add(c0.oid)
+                    cur = c0
+                for side, payload in sides:
+                    pv = deref_val(ex, o.state, payload)
+                    if not (isinstance(pv, Agg) and pv.variant == "Replace"):
+                        continue
+                    n_tok += 1
+                    oid_ = f"replace/{fs}/{f.name}/path{pi}/call{ci}-{X.label[-30:]}/{side}"
+                    reads = [r_ for e_ in equiv for r_ in triv.get(e_, {}).get("all:" + side, [])]
+                    if any(r_.oid in full for r_ in reads):
+                        rep.add(oid_, "unsat", "the replaced trivia is read and carried into the result", nontrivial=False)
+                        continue
+                    guards = []
+                    for u in hv:
+                        l2 = u[1].split("::")[-1]
+                        if not isinstance(u[3], Sym) or not z3.is_bool(u[3].t):
+                            continue
+                        sn2 = u[4] if len(u) > 4 else u[2]
+                        if l2 in GUARDS and side in GUARDS[l2]:
+                            a0 = deref_val(ex, o.state, sn2[0])
+                            if isinstance(a0, Lazy):
+                                a0c = canonical(ex, byoid, a0)
+                                if a0c.oid in equiv or a0c.oid in conts or a0.oid in conts or (equiv & P.of(a0)):
+                                    guards.append(u[3].t)
+                        elif reads and l2 in ("any", "all", "is_some", "is_none", "is_empty") and any(r_.oid in P.of(x) for r_ in reads for x in sn2):
+                            guards.append(u[3].t if l2 in ("any", "is_some") else z3.Not(u[3].t))
+                    bad = z3.And(*guards) if guards else z3.BoolVal(True)
+                    if guards and not ses.reachable(list(o.pc) + [bad]):
+                        rep.add(oid_, "unsat", "the trivia is replaced only on paths where its comment test is false")
+                        continue
+                    r, m = ses.obligation(oid_, list(o.pc), bad, "trivia that is replaced was read into the result or holds no comment")
+                    if r == "sat":
+                        flagged.append((oid_, f"{f.name}: the {side.replace('_', ' ')} of {X.label[-30:]} is replaced without its comments being carried over",
+                                        "replace", {"function": f.name, "token": X.label[-30:], "side": side}))
     rep.bounds[f"transplant_functions_{fs}"] = n_fn
     rep.bounds[f"removed_tokens_{fs}"] = n_tok
     if n_fn < 60 and not getattr(c02, "_debug_single", False):
@@ -331,6 +401,53 @@ def token_reference(ses, rep):
 
 
 # ------------------------------------------------------------------------------------------------ replay: comment census
+# collapse guard -> the parts of the node that end up in the MIDDLE of the collapsed line: (accessor chain, which side's comments)
+# a `--` comment there would swallow the code that follows it on the line
+COLLAPSE_GUARDS = {
+    "is_if_guard": [("then_token", "any"), ("block", "any")],
+    "should_collapse_function_body": [("parameters_parentheses", "trailing"), ("block", "any"), ("end_token", "leading")],
+}
+COMMENT_TESTS = re.compile(r"(^|::)(contains_comments|has_leading_comments|has_trailing_comments|trivia_is_comment|any)(::<.*)?$")
+
+
+def collapse_guards(ses, rep, fs="full"):
+    """H  a statement is collapsed onto one line only if the guard looked for comments in every part that lands mid-line:
+    on every path on which the guard returns true, a comment test was applied to (something read from) each listed part and it said no."""
+    flagged = []
+    for gname, parts in COLLAPSE_GUARDS.items():
+        ex = ses.executor("lib", fs, inline=lambda n, fn: False)
+        ex.max_block_visits = 2
+        fn = ses.need(ex, gname)
+        args = lazy_args(ex, fn)
+        outs = ex.run(fn, args)
+        rep.fn(fn)
+        n = 0
+        for pi, o in enumerate(outs):
+            if o.kind != "return" or not isinstance(o.value, Sym) or not ses.reachable(list(o.pc) + [o.value.t]):
+                continue
+            n += 1
+            P = c02.Prov(ex, o)
+            acc = {}
+            for t in o.trace:
+                if t[0] == "havoc" and isinstance(t[3], Lazy):
+                    acc.setdefault(t[1].split("::")[-1], []).append(t[3].oid)
+            tests = [(t, P.of(t[4][0] if len(t) > 4 and t[4] else (t[2][0] if t[2] else None))) for t in o.trace
+                     if t[0] == "havoc" and COMMENT_TESTS.search(t[1].split("::<")[0]) and isinstance(t[3], Sym) and z3.is_bool(t[3].t)]
+            for part, side in parts:
+                oids = set(acc.get(part, []))
+                rel = [t for t, pv in tests if pv & oids]
+                # the guard is true on this path although none of the tests on this part is known to have said `no comment`
+                bad = z3.BoolVal(True) if not rel else z3.And(*[t[3].t for t in rel])
+                oid = f"collapse/{fs}/{gname}/path{pi}/comments-of-{part}-tested"
+                r, m = ses.obligation(oid, list(o.pc) + [o.value.t], bad, f"{gname} is true only if {part} carries no comment")
+                if r == "sat":
+                    flagged.append((oid, f"{gname} can be true although `{part}` carries a comment ({side} side): the collapsed line would continue after a `--` comment",
+                                    "collapse", {"function": gname, "part": part}))
+        if n == 0:
+            raise Inconclusive(f"{gname}: no path returns true")
+    return flagged
+
+
 def comments_of(src):
     out = []
     pos = 0
@@ -374,14 +491,25 @@ SCENARIOS = {
                    "goto_label = 1 -- c\n-- only comment at end\n"],
     "index": ["x = a --[[1]] . --[[2]] b --[[3]] [ --[[4]] 1 --[[5]] ] --[[6]]\n", "x = a --[[1]] : --[[2]] m --[[3]] ( --[[4]] ) --[[5]]\n"],
 }
+SCENARIOS["collapse"] = ["if x then -- c\n\treturn\nend\n", "if x then --[[b]] return end\n", "if x then\n\treturn -- c\nend\n", "if x then\n\tf() -- c\nend\n",
+                         "local f = function() -- c\n\treturn 1\nend\n", "local f = function()\n\treturn 1\n\t-- c\nend\n", "local f = function(a -- c\n)\n\treturn 1\nend\n",
+                         "local f = function()\n\treturn 1 -- c\nend\n", "if x then\n\tbreak\n\t-- c\nend\n"]
+LUAU_SCENARIOS = {
+    "luau-type-declaration": ["type Pair --[[ name ]] <K, V> --[[ generics ]] = { key: K, value: V }\n", "export type Callback --[[ exported ]] <T...> --[[ pack ]] = (T...) -> ()\n",
+                              "type Box<T> --[[ after generics ]]\n\t= T\n", "type Wrapped --[[ w1 ]] < --[[ w2 ]] T> = { T }\n", "type Plain<T> --[[ plain ]] = T\n",
+                              "type NoGen --[[ a ]] = --[[ b ]] number\n", "type G --[[1]] < --[[2]] T --[[3]] > --[[4]] = --[[5]] T --[[6]]\n"],
+    "luau-types": ["local x: --[[a]] number --[[b]] = 1\n", "local function f(a: --[[p]] number --[[q]], b: string --[[r]]): --[[s]] number --[[t]]\nend\n",
+                   "type U = --[[1]] A --[[2]] | --[[3]] B --[[4]]\n", "type T = { --[[k]] field: --[[v]] number --[[w]], [string]: number --[[x]] }\n",
+                   "local y = v :: --[[c]] number --[[d]]\n"],
+}
 SCENARIOS["trivia-lists"] = ["--[[ a ]]--[[ b ]]\nlocal M = {}\n", "--[=[a]=]-- b\nlocal x = 1\n", "local y = 2 --[[f]]--[[g]]\n", "local z = 3\n--[[ e1 ]]--[[ e2 ]]",
                              "-- one\n-- two\n\n\n-- three\nlocal q = 1 -- four\n", "#!/usr/bin/lua\n-- after shebang\nlocal s = 1\n"]
 FUNC2SCEN = {"load_token_trivia": ["trivia-lists"], "format_expression_internal": ["paren-removal", "binops"], "format_hanging_expression_": ["paren-removal", "binops"], "format_function_args": ["call-sugar", "functions"], "format_block": ["semicolon", "statements"],
-             "format_if": ["condition", "statements"], "format_while_block": ["condition", "statements"], "format_repeat_block": ["condition", "statements"],
+             "format_if": ["condition", "statements"], "is_if_guard": ["collapse"], "format_type_declaration": ["luau-type-declaration"], "should_collapse_function_body": ["collapse"], "format_while_block": ["condition", "statements"], "format_repeat_block": ["condition", "statements"],
              "format_table_constructor": ["table"], "format_index": ["index"], "remove_condition_parentheses": ["condition"]}
 
 
-GENERIC_GROUPS = ("statements", "functions", "table", "index", "binops", "semicolon", "corpus")
+GENERIC_GROUPS = ("statements", "functions", "table", "index", "binops", "semicolon", "corpus", "luau-types", "luau-type-declaration")
 
 
 def census_battery(names=None):
@@ -391,10 +519,13 @@ def census_battery(names=None):
     for k, l in SCENARIOS.items():
         if names is None or k in names:
             progs += [(f"{k}/{i}", "Lua51", s_) for i, s_ in enumerate(l)]
+    for k, l in LUAU_SCENARIOS.items():
+        if names is None or k in names:
+            progs += [(f"{k}/{i}", "Luau", s_) for i, s_ in enumerate(l)]
     if names is None or "corpus" in names:
         progs += [(n_, syn, src) for n_, syn, src in luacorpus.programs("full") if "--" in src]
     for name, syn, src in progs:
-        for cfg in ([], ["--column-width", "40"], ["--column-width", "20"], ["--collapse-simple-statement", "Always"], ["--call-parentheses", "None"],
+        for cfg in ([], ["--column-width", "40"], ["--column-width", "20"], ["--collapse-simple-statement", "Always"], ["--collapse-simple-statement", "ConditionalOnly"], ["--call-parentheses", "None"],
                     ["--call-parentheses", "Input"], ["--line-endings", "Windows"]):
             r = subprocess.run([binp, "--syntax", syn] + cfg + ["-"], input=src.encode(), capture_output=True, timeout=60)
             if r.returncode != 0:
@@ -421,6 +552,7 @@ def run(ses, rep):
         flagged += transplant(ses, rep, "default")
     flagged += load_step(ses, rep)
     flagged += token_reference(ses, rep)
+    flagged += collapse_guards(ses, rep)
     # X: comment text (C10's kernel, restricted to the comment kinds) - its flagged entries are replayed there; here they are obligations
     N = 5 if rep.tier == "quick" else 7
     for fl in c10.k3(ses, rep, N):
